@@ -271,13 +271,22 @@ func VH_winbox_fields() {
 		c := user[i]
 		vapi.Assume((c >= 'a' && c <= 'z') || (c >= '0' && c <= '9'))
 	}
-	m := &l4winbox.MessageAuth{Username: string(user), PublicKeyBytes: vapi.BytesN("key", 32), PublicKeyParity: vapi.Uint8("parity") & 1}
+	name := string(user)
+	romon := vapi.Bool("romon")
+	if romon {
+		name += "+r" // RoMON mode: the wire name is the user name plus this suffix
+	}
+	m := &l4winbox.MessageAuth{Username: name, PublicKeyBytes: vapi.BytesN("key", 32), PublicKeyParity: vapi.Uint8("parity") & 1}
 	b := m.ToBytes()
 	p := &l4winbox.MessageAuth{}
 	err := p.FromBytes(b)
 	vapi.Cover("accepted")
 	vapi.Assert(err == nil, "FromBytes(ToBytes(x)) failed")
 	vapi.Assert(p.Username == m.Username && p.PublicKeyParity == m.PublicKeyParity && bytes.Equal(p.PublicKeyBytes, m.PublicKeyBytes), "FromBytes(ToBytes(x)) != x")
+	vapi.Assert(p.GetRoMON() == romon && p.GetUsername() == string(user), "the parsed message does not report the user name / RoMON mode it was built with")
+	if romon {
+		vapi.Cover("romon")
+	}
 }
 
 // VH_winbox_boundary: user names whose serialised payload straddles the
